@@ -26,7 +26,8 @@ STD = {
     16: ("Q", 8, 32), 17: ("q", 8, 32), 18: ("s", 1, None), 19: ("s", 1, None),
 }
 SIZE = {"B": 1, "b": 1, "?": 1, "c": 1, "s": 1, "H": 2, "h": 2, "I": 4, "i": 4, "f": 4, "Q": 8, "q": 8, "d": 8}
-NUM, CHAR, COMPLEX, NONE = 1, 2, 3, 0
+NUM, CHAR, COMPLEX, NONE = 1, 2, 3, 0       # the MODEL's codes of the data kinds (its sample syntax); nxslib's own numbers
+KIND_NAMES = {NONE: "NONE", NUM: "NUM", CHAR: "CHAR", COMPLEX: "COMPLEX"}   # are never used: kinds are matched by NAME
 META_SINGLE = {1: "B", 2: "H", 4: "I", 8: "Q"}
 
 
@@ -90,15 +91,55 @@ def real_device(layout, xs=None):
     return Device(len(chans), (xs[0] >> 4) & 3 if xs else 0, 0, chans)
 
 
+def real_kind(dt):
+    """model code of a data kind -> nxslib's enum member, by NAME (the numeric values of `EParseDataType` are nobody's
+    business: no property mentions them); if a name is gone, by position in the enum's definition order"""
+    from nxslib.proto.iparse import EParseDataType
+    try:
+        return EParseDataType[KIND_NAMES[dt]]
+    except KeyError:
+        members = list(EParseDataType)
+        if len(members) == len(KIND_NAMES):
+            return members[dt]
+        raise
+
+
+def kind_code(k):
+    """a sample's `dtype` as nxslib returned it -> the model's code (by name / definition order); `?…` if it is no data kind"""
+    from nxslib.proto.iparse import EParseDataType
+    try:
+        m = k if isinstance(k, EParseDataType) else EParseDataType(k)
+    except ValueError:
+        return f"?{k!r}"
+    for code, name in KIND_NAMES.items():
+        if m.name == name:
+            return code
+    members = list(EParseDataType)
+    return members.index(m) if len(members) == len(KIND_NAMES) else f"?{m.name}"
+
+
 def real_user(user):
     if not user:
         return None
-    from nxslib.proto.iparse import DsfmtItem, EParseDataType
+    from nxslib.proto.iparse import DsfmtItem
     out = {}
     for ty, (dt, items) in user.items():
-        cdec = [EParseDataType.NUM] * len(user_atoms(items)) if dt == COMPLEX else None
-        out[ty] = DsfmtItem(1, user_fmt(items), None, EParseDataType(dt), cdec, True)
+        cdec = [real_kind(NUM)] * len(user_atoms(items)) if dt == COMPLEX else None
+        out[ty] = DsfmtItem(1, user_fmt(items), None, real_kind(dt), cdec, True)
     return out
+
+
+def drop_kind(line):
+    """a canonical decode line without the data-kind field of its samples (what the C04 oracle compares: the property
+    speaks of channel id, values and metadata)"""
+    t = line.split(" ")
+    if len(t) != 3 or t[0] != "ok" or t[2] == "-":
+        return line
+    out = []
+    for smp in t[2].split("|"):
+        f = smp.split(",", 2)
+        out.append(f"{f[0]},{f[2]}" if len(f) == 3 else smp)
+    return f"{t[0]} {t[1]} " + "|".join(out)
 
 
 # ---- reference wire format ------------------------------------------------------------------------
@@ -261,7 +302,7 @@ def canon_decoded(ds, layout, user, payload):
             dt = dtype_of(ty, user)
             as_text = dt == CHAR and len(s.data) == 1
             vals.append(canon_value(v, code, raw, frac_of(ty), as_text))
-        out.append(f"{s.chan},{int(s.dtype)},{s.vdim},{s.mlen},[{';'.join(vals)}],[{';'.join(str(int(m)) for m in s.meta)}]")
+        out.append(f"{s.chan},{kind_code(s.dtype)},{s.vdim},{s.mlen},[{';'.join(vals)}],[{';'.join(str(int(m)) for m in s.meta)}]")
     return f"ok {ds.flags} " + ("|".join(out) or "-")
 
 
@@ -308,7 +349,7 @@ def real_samples(samples_str):
 
 # ---- reporting -------------------------------------------------------------------------------------------------------------
 
-def first_difference(want, got):
+def first_difference(want, got, kind=True):
     """where two canonical decode lines (`ok <flags> <sample>|<sample>…`) first differ: a short human-readable note"""
     w, g = want.split(" "), got.split(" ")
     if len(w) < 3 or len(g) < 3 or w[0] != "ok" or g[0] != "ok":
@@ -316,12 +357,13 @@ def first_difference(want, got):
     if w[1] != g[1]:
         return f"flags byte: expected {w[1]}, observed {g[1]}"
     ws, gs = w[2].split("|"), g[2].split("|")
+    nk = (lambda x: x) if kind else (lambda x: ",".join(x.split(",", 2)[::2]))
     for k, (a, b) in enumerate(zip(ws, gs)):
-        if a != b:
+        if nk(a) != nk(b):
             try:
                 pa, pb = parse_sample(a), parse_sample(b)
                 for name, x, y in zip(("chan", "dtype", "vdim", "mlen"), pa[:4], pb[:4]):
-                    if x != y:
+                    if x != y and (kind or name != "dtype"):
                         return f"sample #{k}: {name} expected {x}, observed {y}"
                 for j, (x, y) in enumerate(zip(pa[4], pb[4])):
                     if x != y:
